@@ -334,7 +334,14 @@ pub fn main_driver(e: &dyn Engine) {
                 let before = (st.steps, st.calls);
                 st.runs += 1;
                 st.evhash = 0;
+                crate::world::world().evhash = 0;
                 let v = e.run(&rp, &mut st);
+                {
+                    let w = crate::world::world();
+                    w.fold_trace();
+                    w.cpu.trace.clear();
+                    st.evhash ^= w.evhash;
+                }
                 if let Some(f) = logf.as_mut() {
                     let _ = writeln!(f, "{seed} steps={} calls={} distinct={} evhash={:016x} viol={}", st.steps - before.0, st.calls - before.1, st.distinct.len(), st.evhash, v.as_ref().map(|v| format!("{}@{}:{}", v.oracle, v.step, v.detail)).unwrap_or_default());
                 }
